@@ -114,6 +114,8 @@ pub fn run(out: &Path, seed: u64, thorough: bool, prop: &str) -> Result<(), Box<
     let mut dist: BTreeMap<String, u64> = BTreeMap::new();
     let mut samples = Vec::new();
     let mut n_calls = 0u64;
+    let mut n_sops = 0u64;
+    let mut aterms: Vec<String> = Vec::new();
     for i in 0..n {
         let mut p = GenParams::small();
         p.blocks = 5 + rng.below(9);
@@ -130,6 +132,7 @@ pub fn run(out: &Path, seed: u64, thorough: bool, prop: &str) -> Result<(), Box<
         let mut accounts: BTreeSet<Address> = BTreeSet::new();
         accounts.insert(indexer);
         let mut calls: Vec<String> = Vec::new();
+        let mut acalls: Vec<String> = Vec::new();
         let mut problem: Option<String> = None;
         // reference for the pool clock (no model): the block in which (account, nonce) was last parked
         let mut last_parked: BTreeMap<(Address, u64), u64> = BTreeMap::new();
@@ -229,6 +232,14 @@ pub fn run(out: &Path, seed: u64, thorough: bool, prop: &str) -> Result<(), Box<
                 }
             }
             if out_term == "OPanic" { problem = Some("panic".into()); out_term = "OPanic".into(); }
+            // the store operations recorded while this call was served (shape check: Model/Allowed.v)
+            {
+                let mut t = crate::trace::Tracer::new();
+                t.absorb(&resolved, &outp);
+                let sops: Vec<String> = t.items.iter().filter_map(|it| it.strip_prefix("IOp (").and_then(|x| x.strip_suffix(")")).map(|x| x.to_string())).collect();
+                n_sops += sops.len() as u64;
+                acalls.push(format!("(({}), [{}])", call_term, sops.join("; ")));
+            }
             calls.push(format!("(({}), {{| ep_out := {}; ep_next := {}; ep_wait := {}; ep_pool := [{}] |}})",
                 call_term, out_term, next, waiting,
                 pool.iter().map(|(a, n, b)| format!("({}, {}, {})", addr_term(a), n, b)).collect::<Vec<_>>().join("; ")));
@@ -238,6 +249,7 @@ pub fn run(out: &Path, seed: u64, thorough: bool, prop: &str) -> Result<(), Box<
         }
         if let Some(pb) = problem { if !pb.is_empty() { failures.push(json!({"what": format!("{}: {}", prop, pb), "case": {"history": h}})); } }
         terms.push(format!("{{| ec_id := {}; ec_calls := [\n  {}\n] |}}", i, calls.join(";\n  ")));
+        aterms.push(format!("{{| ac_id := {}; ac_hist := [\n  {}\n] |}}", i, acalls.join(";\n  ")));
         jsonl.push_str(&json!({"id": i, "history": h}).to_string()); jsonl.push('\n');
         if samples.is_empty() { samples.push(json!({"history_ops": h.iter().map(|o| o.kind()).collect::<Vec<_>>(), "first_calls": calls.iter().take(6).collect::<Vec<_>>()})); }
     }
@@ -261,9 +273,14 @@ pub fn run(out: &Path, seed: u64, thorough: bool, prop: &str) -> Result<(), Box<
     let imports = "From Brc.Model Require Import Base Table Engine Tie05.\nFrom BrcGen Require Import Consts.";
     let files = cf::write_shards(out, &format!("{}_e", prop), imports, "ecase",
         "bad_ecases W MAX_FUTURE_TRANSACTION_NONCES MAX_FUTURE_TRANSACTION_BLOCKS INDEXER_ADDRESS", &terms, 16)?;
+    let aimports = "From Brc.Model Require Import Base Table Store Engine EngineStore Allowed TieAllowed.\nFrom BrcGen Require Import Consts.";
+    let afiles = cf::write_shards(out, &format!("{}_a", prop), aimports, "acase",
+        "bad_acases W MAX_FUTURE_TRANSACTION_NONCES MAX_FUTURE_TRANSACTION_BLOCKS INDEXER_ADDRESS", &aterms, 16)?;
+    let mut files = files; files.extend(afiles);
     std::fs::write(out.join(format!("{}_cases.jsonl", prop)), jsonl)?;
     let meta = json!({
         "files": files,
+        "protocol_shape_cases": aterms.len(), "store_ops_in_protocol_shape_cases": n_sops,
         "evaluations": terms.len() as u64 + search_eval,
         "distinct_nontrivial": terms.len(),
         "rule": "histories from the structured generator run on the real engine behind the real RPC table (C05: with out-of-protocol calls injected at arbitrary positions incl. mid-block: wrong tx_idx, timestamp / hash differing from the open block, finalise with a wrong count, existing hash, commit / reorg / mine with an open block, both or neither encodings, undecodable raw transactions; C08: pool-edge scripts: park k+1, k+2 ..., deliver k at 9 / 10 / 11 blocks, replacements, stale, far-future, wrong chain). Each indexer call becomes a model call with the oracles' answers; after each call the answer class (rejected / ok with k receipts), next height, open-block count and pool are compared with Model/Engine.v. All histories are distinct PRNG draws. In addition the implementation-level search simcheck c05 (history with rejected calls vs without: same statuses and observations; every protocol violation rejected; no store mutation during a rejected call).",
